@@ -184,6 +184,15 @@ func (d *Driver) providerTxs() []map[string]any {
 			if (ph == "registered" || ph == "initialized") && d.chance(0.5) {
 				a["init"] = map[string]any{"initRev": d.chainRev(c), "spawn": d.nowSecs() + []int64{1, 10, 60}[d.R.Intn(3)]}
 			}
+			if d.chance(0.2) {
+				// rename the chain, possibly to another revision (with or without matching initialization parameters)
+				d.chainNo++
+				rev := 1 + d.R.Intn(3)
+				a["newChain"] = fmt.Sprintf("ren%d-%d", d.chainNo, rev)
+				if init, ok := a["init"].(map[string]any); ok && d.chance(0.6) {
+					init["initRev"] = rev
+				}
+			}
 		case k < 16:
 			if len(cons) == 0 {
 				continue
